@@ -495,6 +495,9 @@ func DHCPParseOptions(in []byte) (opts []DHCPOption, err error) {
 			if len(in)-pos >= 1 {
 				_len := in[pos]
 				pos++
+				if pos+int(_len) > len(in) {
+					return opts, errors.New("DHCP option runs past the end of the options field")
+				}
 				opts = append(opts, DHCPNewOption(tag, in[pos:pos+int(_len)]))
 				pos += int(_len)
 			}
